@@ -128,6 +128,60 @@ func genRecNode(r *rng, depth int) recNode {
 	return n
 }
 
+// recMS / recMM: maps whose elements contain (or are) the map type itself, by value
+type recMS struct {
+	V int
+	M map[string]recMS
+}
+type recMM map[string]recMM
+
+func genRecMS(r *rng, depth int) recMS {
+	n := recMS{V: r.n(1000)}
+	if depth > 0 {
+		n.M = map[string]recMS{}
+		for i, k := 0, 1+r.n(3); i < k; i++ {
+			n.M[fmt.Sprintf("k%d", i)] = genRecMS(r, depth-1-r.n(2))
+		}
+	}
+	return n
+}
+
+func genRecMM(r *rng, depth int) recMM {
+	m := recMM{}
+	if depth > 0 {
+		for i, k := 0, 1+r.n(3); i < k; i++ {
+			m[fmt.Sprintf("k%d", i)] = genRecMM(r, depth-1-r.n(2))
+		}
+	}
+	return m
+}
+
+func recMSEq(a, b recMS) bool {
+	if a.V != b.V || len(a.M) != len(b.M) {
+		return false
+	}
+	for k, x := range a.M {
+		y, ok := b.M[k]
+		if !ok || !recMSEq(x, y) {
+			return false
+		}
+	}
+	return true
+}
+
+func recMMEq(a, b recMM) bool {
+	if len(a) != len(b) {
+		return false
+	}
+	for k, x := range a {
+		y, ok := b[k]
+		if !ok || !recMMEq(x, y) {
+			return false
+		}
+	}
+	return true
+}
+
 // recIntl: exported fields whose names start with upper-case letters that are not A-Z
 type recIntl struct {
 	Ärger  int
@@ -194,7 +248,20 @@ func recRun(route string, seed uint64) string {
 	o := guard(guardTime, func() {
 		var orig, target interface{}
 		var eq func() bool
-		if r.chance(1, 5) {
+		if r.chance(1, 4) {
+			// map types that contain themselves BY VALUE: one compiled map unfolder serves every depth
+			if r.bool() {
+				v := genRecMS(r, 1+r.n(3))
+				var out recMS
+				orig, target = v, &out
+				eq = func() bool { return recMSEq(v, out) }
+			} else {
+				v := genRecMM(r, 1+r.n(3))
+				var out recMM
+				orig, target = v, &out
+				eq = func() bool { return recMMEq(v, out) }
+			}
+		} else if r.chance(1, 5) {
 			// field names outside ASCII: the member names are whatever Fold derives from them, and
 			// Unfold must find the fields again
 			v := recIntl{Ärger: int(r.n(100)) - 50, Über: string(r.genStr(genOpts{})), Ωmega: []int8{int8(r.n(100)), -3}, Élan: &recIntl{Ärger: 1 + r.n(9), Straße: float64(r.n(64)) / 4}, ÑandÚ: map[string]int{"k": r.n(7)}}
